@@ -13,7 +13,7 @@ m = {
     "hooks": {
         "guard": "byron_gitoxide_verif",
         "enable": "RUSTFLAGS='--cfg byron_gitoxide_verif' (set in /verif/harness/.cargo/config.toml); no hook is currently present in /repo",
-        "baseline_off_cmd": "cd /repo && cargo nextest run --workspace --no-fail-fast --test-threads 8 --offline || cargo test --workspace --no-fail-fast --offline",
+        "baseline_off_cmd": "/verif/tools/baseline.sh  # cd /repo && cargo nextest run --workspace --no-fail-fast --tool-config-file pb:/w/lib/nextest.toml --profile pb --test-threads 8 --offline; there are no hooks in /repo, so guard-off is the plain build; last result on the final tree: 2565 tests run, 2565 passed",
         "source_commits": [],
         "add_only": True,
     },
